@@ -286,6 +286,19 @@ func Run(c *evid.Ctx) {
 	for _, b := range families() {
 		checkBytes(b, true)
 	}
+	// the 64-bit murmur takes the number of bytes to hash: every prefix length of buffers up to 40 bytes
+	for _, b := range families() {
+		if len(b) > 40 {
+			continue
+		}
+		for n := 0; n <= len(b); n++ {
+			evals++
+			if got, want := hll.MurmurHashLongByte(b, int32(n)), refMurmur64(b[:n], 0xe17a1465); got != want {
+				viol("MurmurHashLongByte:prefix", fmt.Sprintf("MurmurHashLongByte(%x, %d)=%016x, the reference hash of the first %d bytes is %016x", clip(b), n, got, n, want))
+				break
+			}
+		}
+	}
 	for _, n := range names {
 		digests["bytes<=2+families:"+n] = hs[n].Sum(nil)
 	}
